@@ -579,4 +579,8 @@ func VerifNoPanic_GnmiNotification() {
 	_ = sem.Acquire(ctx, 1)
 	env.ds.storeSyncMsg(ctx, &target.SyncUpdate{Update: sn}, sem)
 	verifrt.Reach("stored")
+	// whatever the message was (stored, rejected by the converter, ...): the write-worker slot
+	// Datastore.Sync acquired for it is free again, otherwise the sync loop stops for good
+	// once as many messages as there are workers have been rejected
+	verifrt.Assert(sem.TryAcquire(1), "C20-sync-worker-slot-released")
 }
